@@ -124,7 +124,12 @@ def run(chk: core.Check, tier: str, seed: int) -> None:
         else:
             qf = os.path.join(tmp, f"q{k}.txt")
             with open(qf, "w", encoding="utf-8") as fh:
-                fh.write(q + rng.choice(["", "\n", "  \n"]))
+                if c["q"] == "valid" and k % 2:
+                    # a query file is read whole: the query may span lines (blank space between segments) and be
+                    # preceded / followed by blank lines
+                    fh.write(rng.choice(["", "\n", " \n\n"]) + q.replace("$", "$\n ", 1).replace("[?", "[\n?", 1) + rng.choice(["", "\n", "\n\n"]))
+                else:
+                    fh.write(q + rng.choice(["", "\n", "  \n"]))
             argv += ["-r", qf]
         stdin_bytes = b""
         if c["dsrc"] == "file":
